@@ -114,8 +114,12 @@ impl Walrus {
 
         // Important: release the per-column lock; we'll reacquire each iteration
         drop(info);
+        #[cfg(walrus_verif)]
+        crate::wal::verif::point("rn.after_hydrate");
 
         loop {
+            #[cfg(walrus_verif)]
+            crate::wal::verif::point("rn.loop");
             // Reacquire column lock at the start of each iteration
             let mut info = info_arc.write().map_err(|_| {
                 io::Error::new(io::ErrorKind::Other, "col info write lock poisoned")
@@ -156,6 +160,8 @@ impl Walrus {
 
                         // Drop the column lock before touching the index to avoid lock inversion
                         drop(info);
+                        #[cfg(walrus_verif)]
+                        crate::wal::verif::point("rn.sealed_before_persist");
                         if checkpoint {
                             if let Some((idx_val, off_val)) = maybe_persist {
                                 if let Ok(mut idx_guard) = self.read_offset_index.write() {
@@ -191,6 +197,8 @@ impl Walrus {
             // Tail path
             let tail_snapshot = (info.tail_block_id, info.tail_offset);
             drop(info);
+            #[cfg(walrus_verif)]
+            crate::wal::verif::point("rn.tail_snapshot");
 
             let writer_arc = {
                 let map = self.writers.read().map_err(|_| {
@@ -202,6 +210,8 @@ impl Walrus {
                 }
             };
             let (active_block, written) = writer_arc.snapshot_block()?;
+            #[cfg(walrus_verif)]
+            crate::wal::verif::point("rn.after_writer_snapshot");
 
             // If persisted tail points to a different block and that block is now sealed in chain, fold it
             // Reacquire column lock for folding/rebasing decisions
@@ -276,6 +286,8 @@ impl Walrus {
                 }
             }
             drop(info);
+            #[cfg(walrus_verif)]
+            crate::wal::verif::point("rn.before_tail_read");
 
             // Choose the best known tail offset: prefer in-memory snapshot for current active block
             let (tail_block_id, mut tail_off) = match persisted_tail {
@@ -300,6 +312,8 @@ impl Walrus {
                 match active_block.read(tail_off) {
                     Ok((entry, consumed)) => {
                         let new_off = tail_off + consumed as u64;
+                        #[cfg(walrus_verif)]
+                        crate::wal::verif::point("rn.before_tail_commit");
                         // Reacquire column lock to update in-memory progress, then decide persistence
                         let mut info = info_arc.write().map_err(|_| {
                             io::Error::new(io::ErrorKind::Other, "col info write lock poisoned")
@@ -417,6 +431,9 @@ impl Walrus {
                 None => None,
             }
         };
+
+        #[cfg(walrus_verif)]
+        crate::wal::verif::point("br.after_writer_snapshot");
 
         // 1) Prepare state (Chain + Position)
         let mut _held_arc: Option<Arc<RwLock<ColReaderInfo>>> = None;
@@ -885,6 +902,8 @@ impl Walrus {
         if !hold_lock_during_io && info_guard.is_some() {
             // Release lock for AtLeastOnce before IO
             drop(info_guard.take().unwrap());
+            #[cfg(walrus_verif)]
+            crate::wal::verif::point("br.unlocked_before_io");
         }
 
         // 3) Read ranges via io_uring (FD backend) or mmap
